@@ -35,7 +35,15 @@ class C16(framework.PropertyCheck):
     assumptions = ['pickle, argparse, process start-up and exit codes are exercised, not modelled',
                    'programs given to -c are wrapped in one (do ...) form, as the option takes a single expression']
 
-    def gen_program(self, r, with_trace):
+    def gen_program(self, r, with_trace, simplefail=False):
+        if simplefail:
+            # a short program without macros that fails: every path reports the failure the same way
+            forms = [f'(define a9 {r.randint(1, 9)})', '(print "start " a9)',
+                     r.choice(['(print undefined-variable-zz)', '(first 5)', '(do (define dd9 1) (define dd9 2))', '(+ a9 (undefined-function-zz 1))',
+                               '(print (let ([q9 1]) (q9 2)))'])]
+            if r.random() < 0.5:
+                forms.append('(print "after")')
+            return forms
         g = gen_prog.ProgGen(r, errors=0.0)
         forms = [gen_prog.render(f) for f in g.program(r.randint(1, 3))]
         forms = [f for f in forms]
@@ -48,6 +56,9 @@ class C16(framework.PropertyCheck):
                       "(print (for/list [e '(1 2 3)] (* e e)))", '(print (cond [(> 1 2) "a"] [else "b"]))', "(print (cadr '(1 2 3)))"]
         if r.random() < 0.3:
             extra += ["(defmacro unless2 [c e] `(unless ,c ,e))", '(unless2 #f (print "u2"))', "(print (reverse '(1 2 3)) (sort '(3 1 2)))"]
+        if r.random() < 0.3:
+            # a macro whose expansion is a literal, used inside the operands of other macros and inside a function body
+            extra += ['(defmacro five9 [] 5)', '(when #t (print "f " (five9)))', '(defun mul9 [x] (* x (five9)))', '(print (mul9 3) (for/list [e9 (list 1 (five9))] (+ e9 (five9))))']
         if r.random() < 0.3:
             # a user macro that looks at its operands as they were written (library macro call, foldable arithmetic)
             extra += ["(define xs9 '(1 2 3))", "(defmacro q9 [e] `',e)", '(print (q9 (sum xs9)) (q9 (+ 1 2)))',
@@ -83,6 +94,9 @@ class C16(framework.PropertyCheck):
             if k % 6 == 5:
                 c['trace'] = True
                 c['two'] = True        # two traces, given to -l in an order that is not the alphabetical one
+            if k % 8 == 3 and not c.get('two'):
+                c['simplefail'] = True
+                c['trace'] = False
             if k % 12 == 7:
                 c['module'] = True     # a module of its own (macro defined and used inside) loaded with eval-file, as source and compiled
             yield c
@@ -106,7 +120,7 @@ class C16(framework.PropertyCheck):
     TWO = ['(print t0^MAX-INDEX " " t1^MAX-INDEX)', '(step t1 1)', '(print t0^INDEX " " t1^INDEX " " t1^top.cnt " " t0^top.cnt)']
 
     def steps(self, case):
-        forms = self.gen_program(random.Random(case['seed']), case['trace'])
+        forms = self.gen_program(random.Random(case['seed']), case['trace'], case.get('simplefail', False))
         if case.get('module'):
             return None
         st = []
@@ -156,7 +170,7 @@ class C16(framework.PropertyCheck):
     def oracle(self, case, iobs):
         if case.get('module'):
             return self.module_oracle(case)
-        forms = self.gen_program(random.Random(case['seed']), case['trace'])
+        forms = self.gen_program(random.Random(case['seed']), case['trace'], case.get('simplefail', False))
         if case.get('two'):
             forms = self.TWO + [f for f in forms if 'INDEX' not in f and 'find' not in f and 'whenever' not in f and 'count' not in f and '(step' not in f]
         wd = impl.workdir()
@@ -224,7 +238,7 @@ class C16(framework.PropertyCheck):
         return None
 
     def nontrivial(self, case, iobs):
-        forms = self.gen_program(random.Random(case['seed']), case['trace'])
+        forms = self.gen_program(random.Random(case['seed']), case['trace'], case.get('simplefail', False))
         return case['trace'] or any('defmacro' in f for f in forms)
 
     def classify(self, case):
